@@ -502,6 +502,12 @@ func renderComment(b *lineBuf, c *Comment, kind string) {
 	st := U16Len(b.cur.String())
 	stLen := b.cur.Len()
 	b.w(";")
+	if len(c.Items) == 0 {
+		// a comment mark with nothing behind it: blanks after it are the end of the line, not comment text
+		b.r.Spans = append(b.r.Spans, Span{Kind: kind, Line: b.line, S: st, E: st + 1, Text: ";", Entry: b.entry, Post: b.post})
+		b.w(c.Lead)
+		return
+	}
 	b.w(c.Lead)
 	for i, it := range c.Items {
 		if i > 0 {
